@@ -36,7 +36,7 @@ Spellings == {"lower", "UPPER", "Capitalised", "digits"}     \* digits: key foll
 \* The prefix is neutral text; renderings that anchor the key on '<' or '--' do not
 \* support it.
 GluedOK == {"eq", "eq_sp", "eq_dq", "eq_sq", "eq_sp_dq", "json_dq", "dict_sq", "dict_u", "json_tight",
-            "sp_sq", "sp_dq", "argv_flag", "argv_u", "flag"}
+            "sp_sq", "sp_dq", "argv_flag", "argv_u", "flag", "argv_flag_us", "flag_us"}
 
 \* the supported renderings (k = key as spelled, v = secret)
 Renderings == {"eq",            \* k=v
@@ -54,9 +54,11 @@ Renderings == {"eq",            \* k=v
                "sp_dq",         \* k "v"
                "argv_flag",     \* '--k', '--flag', 'v'
                "argv_u",        \* 'k', '-f', u'v'
-               "flag"}          \* k --flag v
+               "flag",          \* k --flag v
+               "argv_flag_us",  \* '--k', '--flag_name', 'v'     (an option name with an underscore)
+               "flag_us"}       \* k --flag_name v
 Quoted == {"eq_dq", "eq_sq", "eq_sp_dq", "json_dq", "dict_sq", "dict_u", "json_tight",
-           "sp_sq", "sp_dq", "argv_flag", "argv_u"}
+           "sp_sq", "sp_dq", "argv_flag", "argv_u", "argv_flag_us"}
 DictStyle == {"json_dq", "dict_sq", "dict_u", "json_tight"}
 
 \* character classes of a secret; each regex metacharacter is its own class
@@ -83,6 +85,10 @@ SecretShapes == {<<c>> : c \in Classes}
                 \cup {<<"letter", c, "digit">> : c \in Classes}
                 \cup {<<c, c>> : c \in Meta}
                 \cup {<<"letter", "letter", "letter", "letter", "letter", "letter", "letter", "letter">>}
+                \* up to the 40 characters the property speaks of: uniform, alternating, and with one metacharacter inside
+                \cup {[i \in 1..n |-> "letter"] : n \in {16, 39, 40}}
+                \cup {[i \in 1..40 |-> IF i % 2 = 0 THEN "digit" ELSE "letter"]}
+                \cup {[i \in 1..40 |-> IF i = 20 THEN c ELSE "letter"] : c \in {"dot", "dollar", "backslash", "nonascii", "equals", "lt"}}
 OkSecret(r, sec) == \A i \in 1..Len(sec) : Carries(r, sec[i])
                     \* a secret does not start or end with white space (it would be
                     \* indistinguishable from the rendering's own padding)
